@@ -164,3 +164,10 @@ Lemma filter_filter_same {A} (p : A -> bool) l : filter p (filter p l) = filter 
 Proof.
   induction l as [|a l IH]; cbn; [reflexivity|]. destruct (p a) eqn:E; cbn; [rewrite E; now f_equal|exact IH].
 Qed.
+
+Lemma find_app_none {A} (p : A -> bool) l1 l2 :
+  (forall x, In x l1 -> p x = false) -> find p (l1 ++ l2) = find p l2.
+Proof.
+  induction l1 as [|a l1 IH]; intros H; cbn; [reflexivity|].
+  rewrite (H a (or_introl eq_refl)). apply IH. intros x Hx. apply H. now right.
+Qed.
